@@ -70,6 +70,6 @@ META = {
              "+-DBL_MAX are excluded as outside the schema's conventions. A unit-level null bounding box is read "
              "back as infinite (writer omits it); no constructed or bundled input has one. Found on the "
              "original tree: a VolumeInput with empty logic + implicit_vol is written without a 'logic' key "
-             "and cannot be read back (signature roundtrip:empty-logic-volume-not-readable, "
-             "proposed_findings/C19.json, repro harness/c19_repro_empty_logic.cc)."),
+             "and could not be read back (signature roundtrip:empty-logic-volume-not-readable; repaired in "
+             "/repo 0110ad3, repro harness/c19_repro_empty_logic.cc)."),
 }
